@@ -93,6 +93,14 @@ theorem audit_fetch_3 : audit (ladderFetch [1, 1, 1]) = true := by decide
 theorem audit_fetch_allof : audit (ladderFetch [3]) = true := by decide
 theorem audit_fetch_mixed : audit (ladderFetch [1, 2, 1]) = true := by decide
 
+/-- … every path object with up to 3 matchers of up to 4 operands each (85 shapes), and up to the
+    configured maximum of 12 single-operand matchers -/
+theorem audit_fetch_small_shapes : ∀ s ∈ shapes 3 4, audit (ladderFetch s) = true := by decide +kernel
+theorem audit_fetch_max_matchers : ∀ n ∈ List.range 13, audit (ladderFetch (List.replicate n 1)) = true := by
+  decide +kernel
+
+example : (shapes 3 4).length = 85 ∧ [2, 4, 1] ∈ shapes 3 4 := by decide
+
 /-- (d) growth of an element's fetcher table -/
 theorem audit_grow : audit ladderGrow = true := by decide
 
@@ -111,6 +119,17 @@ example : ((List.range 20).filter (fun i => failsAt (ladderAdd true) (some i))).
     cannot be named by the `add` ladder at all, links from the containers to other objects can -/
 example : Fresh (ladderAdd true) [] [(.index, .subs)] := by
   unfold Fresh; decide
+
+/-- the generic theorems at work: the table-full failure (step 7) of an `add`, with another element
+    already indexed: nothing of the failed `add` stays, the other entry is untouched -/
+example :
+    let s := runLadder (ladderAdd true) (some 7) ⟨[], [(.index, .subs)], 0, 0⟩
+    s.bad = 0 ∧ s.held = [] ∧ s.links = [(.index, .subs)] ∧ s.responses ≤ 1 := by
+  have hf : Fresh (ladderAdd true) [] [(.index, .subs)] := by unfold Fresh; decide
+  have h1 := unwind_releases_all (ladderAdd true) audit_add_state [] [(.index, .subs)] hf (some 7)
+  have h2 := table_not_left_dangling (ladderAdd true) audit_add_state [] [(.index, .subs)] hf (some 7)
+  have h3 := at_most_one_response (ladderAdd true) audit_add_state [] [(.index, .subs)] hf (some 7)
+  exact ⟨h1.1, h1.2.1 (by decide), h2.1 (by decide), h3⟩
 
 /-- the audit is not vacuous: the routed-request ladder as it was before the repair of
     "set_or_call send failure leaves routing entry + armed timer" (send failure only answers) fails it -/
